@@ -7,15 +7,18 @@ package babble
 
 // A failed call is an error, never an empty success (C20): nil is returned only after an RPC completed with a nil error.
 //@ func (p *SocketBabbleProxyClient) call(serviceMethod string, args interface{}, reply interface{}) error
+//@   safety on
 //@   requires p != nil && p.retries >= 1
 //@   ensures[no-silent-failure] ret0 == nil ==> __called("Call") && __lastret("Call", 0) == nil
 //@   loop 1 invariant[failed-so-far] try >= 0 && (try == 0 ==> err == nil) && (try > 0 ==> err != nil)
 
 //@ func NewSocketBabbleProxyClient(nodeAddr string, timeout time.Duration) *SocketBabbleProxyClient
+//@   safety on
 //@   modifies nothing
 //@   ensures[retries] ret0 != nil && __fresh(ret0) && ret0.retries == 3
 
 //@ func (p *SocketBabbleProxyClient) SubmitTx(tx []byte) (*bool, error)
+//@   safety on
 //@   call call assert[own-reply] __owned(__arg(2))
 //@   requires p != nil && p.retries >= 1
 //@   ensures[error-reported] (ret1 == nil) == (__lastret("call", 0) == nil)
@@ -23,26 +26,31 @@ package babble
 
 // SubmitTx succeeds only if the call succeeded AND Babble acknowledged the transaction.
 //@ func (p *SocketBabbleProxy) SubmitTx(tx []byte) error
+//@   safety on
 //@   requires p != nil && p.client != nil && p.client.retries >= 1
 //@   ensures[acknowledged] ret0 == nil ==> __lastret("SubmitTx", 1) == nil && __lastret("SubmitTx", 0).(*bool) != nil && *(__lastret("SubmitTx", 0).(*bool))
 
 // The RPC handlers hand the application exactly what arrived and return exactly what the application returned.
 //@ func (p *SocketBabbleProxyServer) CommitBlock(block hashgraph.Block, response *proxy.CommitResponse) (err error)
+//@   safety on
 //@   requires p != nil && response != nil
 //@   call CommitHandler assert[same-block] __eq(__argT[hashgraph.Block](0), block)
 //@   ensures[transparent] __called("CommitHandler") && __eq(*response, __lastretT[proxy.CommitResponse]("CommitHandler", 0)) && err == __lastret("CommitHandler", 1)
 
 //@ func (p *SocketBabbleProxyServer) GetSnapshot(blockIndex int, snapshot *[]byte) (err error)
+//@   safety on
 //@   requires p != nil && snapshot != nil
 //@   call SnapshotHandler assert[same-index] __arg(0) == blockIndex
 //@   ensures[transparent] __called("SnapshotHandler") && __eq(*snapshot, __lastretT[[]byte]("SnapshotHandler", 0)) && err == __lastret("SnapshotHandler", 1)
 
 //@ func (p *SocketBabbleProxyServer) Restore(snapshot []byte, stateHash *[]byte) (err error)
+//@   safety on
 //@   requires p != nil && stateHash != nil
 //@   call RestoreHandler assert[same-snapshot] __eq(__argT[[]byte](0), snapshot)
 //@   ensures[transparent] __called("RestoreHandler") && __eq(*stateHash, __lastretT[[]byte]("RestoreHandler", 0)) && err == __lastret("RestoreHandler", 1)
 
 //@ func (p *SocketBabbleProxyServer) OnStateChanged(state state.State, obj *struct{}) (err error)
+//@   safety on
 //@   requires p != nil
 //@   call StateChangeHandler assert[same-state] __arg(0) == state
 //@   ensures[transparent] __called("StateChangeHandler") && err == __lastret("StateChangeHandler", 0)
